@@ -430,12 +430,22 @@ class Discharger(object):
                 rng[k] = (lo[k], hi[k])
         return rng
 
+    def link_of(self, rv, iv):
+        """the integer meaning of a cut variable. Linear forms are linked in real arithmetic over their guards (no
+        bit-vector/integer bridging, which z3 handles unreliably); other bit-vector values through bv2int"""
+        if isinstance(iv, GSum) and iv.range(True) is not None:
+            acc = z3.RealVal(canon(iv.const, iv.w, True))
+            for g, c in iv.terms.values():
+                acc = acc + z3.If(g, z3.RealVal(canon(c, iv.w, True)), z3.RealVal(0))
+            return rv == acc
+        return rv == z3.ToReal(z3.BV2Int(tobv(iv, 64), True))
+
     def cut_links(self, t):
         cv = self.ex.fc.cutvars
         cons = []
         for c in self.cuts_in(t):
             rv, iv = cv[c]
-            cons.append(rv == z3.ToReal(z3.BV2Int(tobv(iv, 64), True)))
+            cons.append(self.link_of(rv, iv))
         return cons
 
     # ------------------------------------------------------------ float closeness
@@ -673,7 +683,7 @@ class Discharger(object):
             cv = self.ex.fc.cutvars
             for c in set(cuts):
                 rv, iv = cv[c]
-                asserts.append(rv == z3.ToReal(z3.BV2Int(tobv(iv, 64), True)))
+                asserts.append(self.link_of(rv, iv))
             asserts += self.ex.fc.side
         # axioms of the uninterpreted library functions, instantiated on the applications that occur
         asserts = asserts + self.uf_axioms(asserts)
